@@ -75,6 +75,28 @@ MUTANTS = [
     m('C12', 'fill_in_added_after_removal', (JT, "            G.add_edges_from(tmp)\n            G.remove_node(node)", "            G.remove_node(node)")),
     m('C12', 'tree_skips_zero_weight_edges', (JT, "            wgt = len(set(c1) & set(c2))\n            complete.add_edge(c1, c2, weight=-wgt)", "            wgt = len(set(c1) & set(c2))\n            if wgt > 0: complete.add_edge(c1, c2, weight=-wgt)")),
     m('C12', 'separator_one_sided', (JT, "return { (i,j) : tuple(set(i)&set(j)) for i,j in self.mp_order() }", "return { (i,j) : tuple(set(i)&set(j)) for i,j in self.tree.edges() }")),
+    # ---- C07 ------------------------------------------------------------
+    m('C07', 'cdp_rho_returns_rhomax', (CDP, "    return rhomin\n", "    return rhomax\n")),
+    m('C07', 'cdp_rho_rhomax_too_small', (CDP, "    rhomax=eps+1 #maintain", "    rhomax=eps/4 #maintain")),
+    m('C07', 'cdp_delta_exponent_alpha', (CDP, "    delta = math.exp((alpha-1)*(alpha*rho-eps)+alpha*math.log1p(-1/alpha)) / (alpha-1.0)", "    delta = math.exp((alpha-1)*(alpha*rho-eps)+(alpha-1)*math.log1p(-1/alpha)) / (alpha-1.0)")),
+    m('C07', 'cdp_delta_few_iterations', (CDP, "    for i in range(1000): #should be enough iterations", "    for i in range(12): #should be enough iterations")),
+    m('C07', 'cdp_delta_derivative_sign', (CDP, "        derivative = (2*alpha-1)*rho-eps+math.log1p(-1.0/alpha)", "        derivative = (2*alpha-1)*rho-eps-math.log1p(-1.0/alpha)")),
+    m('C07', 'cdp_eps_returns_epsmin', (CDP, "    return epsmax\n", "    return epsmin\n")),
+    m('C07', 'cdp_eps_epsmax_too_small', (CDP, "    epsmax=rho+2*math.sqrt(rho*math.log(1/delta))", "    epsmax=rho+math.sqrt(rho*math.log(1/delta))")),
+    m('C07', 'cdp_delta_standard_bound', (CDP, "    return min(delta,1.0) #delta<=1 always", "    return min(max(delta, cdp_delta_standard(rho,eps)) if eps>rho else delta,1.0) #delta<=1 always")),
+    # ---- C20 ------------------------------------------------------------
+    m('C20', 'mech_em_coef_one', (MECH, "            p = softmax(0.5*epsilon/sensitivity*q + base_measure)", "            p = softmax(1.0*epsilon/sensitivity*q + base_measure)")),
+    m('C20', 'mech_em_sensitivity_multiplied', (MECH, "            p = softmax(0.5*epsilon/sensitivity*q)", "            p = softmax(0.5*epsilon*sensitivity*q)")),
+    m('C20', 'mech_em_base_linear', (MECH, "                base_measure = np.log([base_measure[key] for key in keys])\n        else:\n            qualities = np.array(qualities)", "                base_measure = np.array([base_measure[key] for key in keys])\n        else:\n            qualities = np.array(qualities)")),
+    m('C20', 'laplace_scale_bounded_dropped', (MECH, "        if self.bounded: l1_sensitivity *= 2.0\n", "")),
+    m('C20', 'gaussian_noise_variance_not_sd', (MECH, "        return self.prng.normal(0, sigma, size)", "        return self.prng.normal(0, sigma**2, size)")),
+    m('C20', 'mst_em_monotonic_swapped', (MST, "    coef = 1.0 if monotonic else 0.5\n    scores = coef*eps/sensitivity*q", "    coef = 0.5 if monotonic else 1.0\n    scores = coef*eps/sensitivity*q")),
+    m('C20', 'ag_em_no_sensitivity', (AG, "    scores = coef * eps / sensitivity * (q - q.max())", "    scores = coef * eps * (q - q.max())")),
+    m('C20', 'mwem_wa_bounded_ignored', (MWEM, "    sensitivity = 2.0 if bounded else 1.0", "    sensitivity = 1.0")),
+    m('C20', 'aim_wa_min_sensitivity', (AIM, "        max_sensitivity = max(sensitivity.values())", "        max_sensitivity = min(sensitivity.values())")),
+    m('C20', 'mst_measure_reports_sigma', (MST, "        measurements.append( (Q, y, sigma/wgt, proj) )", "        measurements.append( (Q, y, sigma, proj) )")),
+    m('C20', 'best_noise_inverted', (MECH, "        if np.sqrt(2)*b < sigma:\n            return partial(self.laplace_noise, b)", "        if np.sqrt(2)*b > sigma:\n            return partial(self.laplace_noise, b)")),
+    m('C20', 'gem_dict_keys_sorted', (MECH, "            keys = list(qualities.keys())\n            qualities = np.array([qualities[key] for key in keys])\n            sensitivities", "            keys = sorted(qualities.keys())\n            qualities = np.array([qualities[key] for key in qualities])\n            sensitivities")),
 ]
 
 
